@@ -25,6 +25,10 @@ CLAIMED = {
          "Proof: 14 theorems — exact round trip for every element size/length and for sequences of writes, no out-of-bounds read for any buffer/cursor/length prefix (incl. byte counts wrapping 2^64), every strict prefix of a serialised object is an error, crash invariant of backup-rename/open/write*/close for every crash point and chunking, plus machine-checked witnesses of the two repaired defects and of the double-crash finding. Tied to the code by byte-exact comparison on generated and systematic corrupted streams, by loading truncated/bit-flipped real state files, and by killing the real process at every file operation.",
          "Models hand-written (CvModel/MemStream.lean, FileSys.lean). Memory safety of the callers is evidence from sampled runs, not proof. Crash = _exit at interposed libc calls; OS cache/power-loss semantics not modelled. Two defects repaired by fix: commits (43b054d1, f6c58e21); two open findings in known_findings.json (double crash; binary metadynamics block cut at a hill boundary).",
          "DESIGN.md §4 C11"),
+ "C13": ("Lean 4 theorems about a model of the dependency engine over feature tables regenerated from the source by a translator on every run (decide-obligations on the tables; properties of enable/disable/decr) + replay of enable/disable on snapshots of the real graph through the model + invariants and define/delete identity evaluated on the real objects",
+         "Proof: 13 theorems — on the regenerated tables: every feature initialised, all indices in range, exclusions symmetric, requires_self/requires_alt chains acyclic (the termination argument the code's comment says is missing), 'active' first; on the engine: a dry run changes nothing, a feature excluded by an enabled one / unavailable / non-dynamic-by-dependency cannot be enabled and nothing changes, an enabled feature gains one reference per dependant, disable refuses while more than one dependant remains, releasing one of several references keeps the feature, static/user features are never auto-disabled. The translator's tables are cross-checked against the running library's; enable/disable calls on snapshots of the real graph (incl. the reference counts leaked by failed enables) are replayed through the model and compared field by field; after every operation of random define/delete/reset/step sequences the consistency conditions and atom reference counts are evaluated on the real graph, and survivors are compared with an instance that only ever had them.",
+         "Partial: the define/delete identity and the global consistency invariant are checked on the implementation (oracle), not proved on a module-level model; fuel-indexed recursion (fuel 64). One open finding (variable left inactive after its last bias is deleted) in known_findings.json.",
+         "DESIGN.md §4 C13"),
  "C15": ("Lean 4 theorems (bins over the reals, index arithmetic over Int, histogram counts by induction over histories) + differential correspondence with colvar_grid and the histogram bias",
          "Proof: 17 theorems — the assigned bin is the unique i with lo+i*w <= x < lo+(i+1)*w, bin centre lies in its bin, index_ok characterisation, address range/injectivity/surjectivity, incr enumerates every address exactly once in order, periodic wrap, sizes from boundaries, and for every history the total count equals the number of eligible in-range samples and each bin holds the samples that address it. Tied to the code on generated grids (edges, outside, 1-3 D) and on real histogram biases driven by injected value histories incl. run boundaries and custom grid blocks.",
          "Model hand-written (CvModel/Grid.lean). Partial: grid-file round trips (multicolumn/restart/raw) are not modelled yet; gatherVectorColvars cannot be configured at the pinned commit (histogram init enables the scalar-variables requirement unconditionally), so the vector-histogram theorem has no implementation counterpart to compare with. Floating point not modelled.",
